@@ -474,6 +474,17 @@ func (s *vfSerState) battery(max int) [][]vfHit64 {
 				return out
 			}
 		}
+		// node-id text queries for a few live documents (the query is rebuilt from the stored tokens)
+		for _, id := range vfSortedU32Bool(s.live) {
+			res, err := s.bm.NewSearch().WithNode(id).WithK(0).Execute()
+			var h []vfHit64
+			for _, r := range res {
+				h = append(h, vfHit64{r.GetId(), float64(r.GetScore())})
+			}
+			if add(h, err) || len(out) >= max-1 {
+				return out
+			}
+		}
 	case "metadata":
 		all := append(append([]vfMOp{}, c.Meta.Ops...), c.ContMeta...)
 		for i := range all {
@@ -568,6 +579,104 @@ func (s *vfSerState) battery(max int) [][]vfHit64 {
 		}
 	}
 	return out
+}
+
+// fullScan returns what the object holds, through every modality it has (k = all).
+func (s *vfSerState) fullScan() [][]vfHit64 {
+	var out [][]vfHit64
+	c := s.c
+	errMark := []vfHit64{{0, math.NaN()}}
+	put := func(h []vfHit64, err error) {
+		if err != nil {
+			out = append(out, errMark)
+		} else {
+			out = append(out, h)
+		}
+	}
+	textScan := func(run func(q string) ([]vfHit64, error)) {
+		for _, tok := range []string{"a", "b", "fox", "fish", "zeta", "x", "3", "tm", "iv", "common"} {
+			put(run(tok))
+		}
+	}
+	switch c.Kind {
+	case "bm25":
+		textScan(func(q string) ([]vfHit64, error) {
+			res, err := s.bm.NewSearch().WithQuery(q).WithK(0).Execute()
+			var h []vfHit64
+			for _, r := range res {
+				h = append(h, vfHit64{r.GetId(), float64(r.GetScore())})
+			}
+			return h, err
+		})
+	case "metadata":
+		for _, f := range vfMFieldNames {
+			res, err := s.mi.NewSearch().WithFilters(Exists(f)).Execute()
+			var h []vfHit64
+			for _, id := range vfMetaIDs(res) {
+				h = append(h, vfHit64{id, 0})
+			}
+			put(h, err)
+		}
+		res, err := s.mi.NewSearch().Execute()
+		var h []vfHit64
+		for _, id := range vfMetaIDs(res) {
+			h = append(h, vfHit64{id, 0})
+		}
+		put(h, err)
+	case "hybrid":
+		conv := func(res []HybridSearchResult, err error) ([]vfHit64, error) {
+			var h []vfHit64
+			for _, r := range res {
+				h = append(h, vfHit64{r.ID, r.Score})
+			}
+			return h, err
+		}
+		if c.Hyb.HasVec {
+			q := make([]float32, c.Hyb.Dim)
+			q[0] = 1
+			put(conv(s.hy.NewSearch().WithVector(q).WithK(vfBigK).WithNProbes(1000).Execute()))
+		}
+		if c.Hyb.HasText {
+			textScan(func(q string) ([]vfHit64, error) {
+				return conv(s.hy.NewSearch().WithText(q).WithK(vfBigK).Execute())
+			})
+		}
+		if c.Hyb.HasMeta {
+			for _, f := range vfMFieldNames {
+				put(conv(s.hy.NewSearch().WithMetadata(Exists(f)).WithK(vfBigK).Execute()))
+			}
+		}
+	default:
+		q := make([]float32, c.Vec.Dim)
+		q[0] = 1
+		res, err := s.ut.idx.NewSearch().WithQuery(q).WithK(0).WithNProbes(0).Execute()
+		var h []vfHit64
+		for _, r := range res {
+			h = append(h, vfHit64{r.GetId(), float64(r.GetScore())})
+		}
+		put(h, err)
+	}
+	return out
+}
+
+// removeOne removes one live document (all kinds); reports whether the object accepted it.
+func (s *vfSerState) removeOne(id uint32) bool {
+	var err error
+	switch s.c.Kind {
+	case "bm25":
+		err = s.bm.Remove(id)
+	case "metadata":
+		err = s.mi.Remove(*NewMetadataNodeWithID(id, nil))
+	case "hybrid":
+		err = s.hy.Remove(id)
+	default:
+		err = s.ut.idx.Remove(*NewVectorNodeWithID(id, nil))
+	}
+	if err == nil {
+		delete(s.live, id)
+		s.gone[id] = true
+	}
+	return err == nil
 }
 
 // vfBatteriesEqual compares two battery outputs: same error pattern, same score at every rank,
